@@ -17,7 +17,7 @@ VARY_WRITE_CAP = True  # W4: partial raw data writes (sim.disk)
 VARY_KNOBS = True  # module-level tuning constants of the library are lowered in some runs (sim.core.lower_tuning_constants)
 SHRINK_LISTS = ("ops", "faults")
 SHRINK_MIN = {"nchans": 1, "nbits": 1, "n": 1}
-SHRINK_SIMPLE = {"write_cap": None, "knobs": None, "stale": 0, "hdr_pad": 0}
+SHRINK_SIMPLE = {"write_cap": None, "knobs": None, "stale": 0, "hdr_pad": 0, "companion": 0}
 KINDS = ["fil", "fil", "fil", "block", "tim", "dat", "spec", "fft"]
 DT = ["uint8", "uint16", "int64", "float32", "float64"]
 # further in-memory types a caller holds (astropy hands out big-endian arrays; integer arithmetic gives int32/int16):
@@ -82,6 +82,7 @@ def generate(rng, tier) -> dict:
         sc["nchans"] = rng.choice([1, 2, 4]) if kind == "block" else 1
         sc["mode"] = rng.choice(["bits", "ramp"])
         sc["dotted"] = rng.random() < 0.3
+        sc["companion"] = rng.choice([0, 0, 1, 3, 8, 15]) if kind == "fft" else 0
         if rng.random() < 0.15 and kind in ("block", "tim", "dat", "spec"):
             sc["faults"].append({"kind": "W3", "op": 0, "call": rng.choice([0, 1]), "arg": rng.randint(0, 12)})
     # the output path already holds a LONGER file (an earlier run of the same script with a longer range):
@@ -374,6 +375,13 @@ def exec_container(sc, ctx, sim, mk) -> None:
             cdata = vals[:, 0].copy().view(np.complex64)
             fsr = FourierSeries(cdata, hdr)
             out = fsr.to_spec(os.path.join(ctx.root, f"{stem}.spec")) if kind == "spec" else fsr.to_fft(os.path.join(ctx.root, stem))
+            if kind == "fft" and sc.get("companion") and not sc["faults"]:
+                # the PRESTO layout: the time series the spectrum came from is written next to it under the SAME basename
+                # (x.dat + x.fft share x.inf); its length is not the transform length (rfft pads to a good size)
+                n_t = max(1, 2 * (n - 1) - int(sc["companion"]))
+                ts_c = TimeSeries(np.arange(n_t, dtype=np.float32), hdr.new_header({"nsamples": n_t}))
+                ts_c.to_dat(os.path.join(ctx.root, stem))
+                ctx.probe("dat-and-fft-share-one-inf")
             if sibling:
                 fs2 = FourierSeries((cdata[: max(1, n // 2)] + 1).copy(), hdr.new_header({"dm": sc["dm"] + 0.25}))
                 (fs2.to_spec(os.path.join(ctx.root, f"{sibling}.spec")) if kind == "spec" else fs2.to_fft(os.path.join(ctx.root, sibling)))
